@@ -56,12 +56,14 @@ def run(tier, seed):
             raise lib.ToolError(f"edge emitter produced {len(edges)} edges rc={r.rc}")
         ep = os.path.join(lib.outdir(PID), f"edges_{expire}.ndjson")
         lib.write_ndjson(ep, edges)
-        runs = [("pair", [1, 2]), ("mixed", [0, 18446744073709551615])]
+        # third run: the header fragment also carries an atom cache section, which is the start of the message
+        runs = [("pair", [1, 2], False), ("mixed", [0, 18446744073709551615], False), ("pair", [3, 4], True)]
         if tier == "thorough":
-            runs.append(("pair", [seed % 1000 + 5, 2 ** 63]))
-        for mode, seq_map in runs:
-            op = os.path.join(lib.outdir(PID), f"obs_{expire}_{mode}.ndjson")
-            cfg = {"expire": expire, "payload": mode, "seq_map": seq_map}
+            runs.append(("pair", [seed % 1000 + 5, 2 ** 63], False))
+            runs.append(("mixed", [7, 8], True))
+        for mode, seq_map, cache in runs:
+            op = os.path.join(lib.outdir(PID), f"obs_{expire}_{mode}{'_cache' if cache else ''}.ndjson")
+            cfg = {"expire": expire, "payload": mode, "seq_map": seq_map, "cache": cache}
             rc, out = lib.harness(["frag-edges", ep, op, json.dumps(cfg)])
             stats = json.loads(out.strip().splitlines()[-1])
             if stats["reached"] != stats["states"]:
@@ -86,10 +88,11 @@ def judge(v, o, mode, cfg):
     v.case(key)
     case = {"cfg": cfg, "path": o["path"], "act": act}
     retA, retI = o["retA"], o["retI"]
-    exp = None if not retA else concat(mode, retA)
+    cache = (lambda toks: [200 + toks[0][0], 201, 202]) if cfg.get("cache") else (lambda toks: [])
+    exp = None if not retA else cache(retA) + concat(mode, retA)
     obs = o["obs_ret"]
     if obs != exp:
-        pred = None if not retI else concat(mode, retI)
+        pred = None if not retI else cache(retI) + concat(mode, retI)
         case.update({"expected_tokens": retA, "observed_len": None if obs is None else len(obs),
                      "observed": None if obs is None else obs[:16]})
         n_frag = len(retA)
